@@ -35,7 +35,7 @@ type vGoldRow struct {
 	Obj  vGold  `json:"obj"`
 }
 
-var vhGoldCfgs = []string{"base", "gzip", "cache", "async", "ext", "lower"}
+var vhGoldCfgs = []string{"base", "gzext", "async", "gzip", "cache", "ext", "lower"}
 
 func vhGoldEq(a, b *vGold) bool {
 	if a.A != b.A || a.S != b.S || a.U != b.U || a.T.UnixNano() != b.T.UnixNano() || a.F != b.F || a.Q != b.Q ||
@@ -195,6 +195,9 @@ func VH_C18_golden_write() {
 		s.Asynchrone(2, 100*time.Millisecond)
 	case "ext":
 		s.Extension = ".bin"
+	case "gzext": // compression with a custom extension that itself ends in .gz
+		s = DefaultSchemaCompress
+		s.Extension = ".json.gz"
 	}
 	root := vTempDir()
 	db := Open(root)
